@@ -237,6 +237,12 @@ func (enc *Encoder) marshalFieldValue(s capnp.Struct, f schema.Field) error {
 		if !p.IsValid() {
 			p, _ = dv.StructValue()
 		}
+		if !p.IsValid() {
+			// A null struct is the struct of all defaults.  Expanding its
+			// fields would never end for a type that contains itself.
+			enc.w.WriteString("()")
+			return nil
+		}
 		return enc.marshalStruct(typ.StructType().TypeId(), p.Struct())
 	case schema.Type_Which_data:
 		p, err := s.Ptr(uint16(f.Slot().Offset()))
